@@ -6,7 +6,10 @@ Correspondence: call sequences (<= 30 calls, 1..3 handles, succeeding and failin
   (b) through the Gallina model CApiModel.c_run with the glue table transcribed from the working tree
       (Generated_cinter.wrappers) and the C++ object model of C20 under the tree's cfg — evaluated by coqc (vm_compute).
 Compared exactly per call: return code class, per-handle state (NULL / ndim, orders, nknots, naxes, aux keys), number of
-live handles / results / buffers.  Oracle on the implementation alone: C line == twin line (return value, output
+live handles / results / buffers.  Every value-returning wrapper (12 accessors, tablesearchcenters, ndsplineeval, ndsplineeval_deriv,
+ndsplineeval_gradient) is also called on handles WITHOUT a table (zero-initialised, after a failed read, after splinetable_free) and
+on the NULL handle (`op notable`): three-way comparison of the C result, the value the header documents (harness `t` line) and the
+model's prediction (CApiModel.c_call through the translated leading check).  Oracle on the implementation alone: C line == twin line (return value, output
 buffers, written files byte for byte), dumps equal, process alive (no std::terminate, no sanitizer report), LSan clean
 at the end of every sequence that releases what it obtained."""
 import os, re, sys, json, subprocess, hashlib, time
@@ -20,7 +23,7 @@ ASSUMPTIONS = [
     "the C++ members behave as ObjModel.cpp_step says (C20's model, tied by C20's own check); accessors, searchcenters, ndsplineeval, ndsplineeval_deriv, get_aux_value, read_key do not throw (by reading; every call of this run tests it)",
     "tools/translators/cinter.py transcribes the glue shape of every extern \"C\" function correctly (fails closed on any unrecognised statement; the transcription is exercised by the model-vs-implementation comparison of this run)",
     "C18_balanced / C18_memory_safe compose with C20's global invariant (C20_step_preserves) and are therefore about cfg_fixed and about call sequences whose C++ twins satisfy C20's side conditions wf_op (files that pass the dimension check have ndim >= 1 and ndim naxes entries, a fit that passes the sanity checks has >= 1 dimension, a key's byte count is a function of the key); C20_tree_is_fixed ties cfg_fixed to the tree. LeakSanitizer at the end of every sequence stays as the runtime cross-check",
-    "memory safety of the value-returning wrappers (accessors, tablesearchcenters, ndsplineeval*, and grideval on an empty table) is proved under their documented precondition doc_pre (the handle holds a populated table): they have no way to report a failure (known finding C18:accessors:null-handle-deref)",
+    "memory safety of the per-dimension accessors, tablesearchcenters, ndsplineeval* and grideval on a handle that HOLDS a table is proved under the documented precondition doc_pre (the table is populated, not the empty table splinetable_init leaves: the C++ member itself indexes its arrays, the C++ twin crashes identically); a handle WITHOUT a table / a NULL handle is covered unconditionally (C18_no_table_refused, after repo fix F18_1)",
     "the C caller passes handles whose data member is NULL or came from this interface, result variables and buffer structs that are empty, and arrays of the documented lengths (valid_call)",
 ]
 TRUSTED_EXTRA = ["harness/C18_harness.cpp (C call beside C++ twin; dumps; LSan recoverable check per sequence)",
@@ -30,7 +33,7 @@ FN = {"init": "splinetable_init", "free": "splinetable_free", "read": "readsplin
       "getkey": "splinetable_get_key", "readkey": "splinetable_read_key", "writekey": "splinetable_write_key", "acc": "accessors",
       "eval": "tablesearchcenters+ndsplineeval", "grad": "ndsplineeval_gradient", "conv": "splinetable_convolve",
       "readmem": "readsplinefitstable_mem", "writemem": "writesplinefitstable_mem", "buffree": "free", "fit": "splinetable_glamfit",
-      "grideval": "splinetable_grideval", "nddestroy": "ndsparse_destroy", "perm": "splinetable_permute", "nullarg": "nullarg"}
+      "grideval": "splinetable_grideval", "nddestroy": "ndsparse_destroy", "perm": "splinetable_permute", "nullarg": "nullarg", "notable": "notable"}
 SHAPES = list(c20.SHAPES) + [("s8", [(1, 4)] * 8, [("KEY1", "7")])]
 KEYS = dict(c20.KEYS); KEYS.update({"NEWK": 21, "NEWD": 22, "KE~": 23, "ABSENT": 24})
 PH = {"none": "PNone", "hdu": "PHdu", "dim": "PDim", "order": "POrder", "imgsize": "PImgSize", "coeff": "PCoeff", "extents": "PExtents"}
@@ -133,8 +136,12 @@ def gen_sequence(rng, env, maxlen=30, probe_null=True):
         h = rng.below(nh); st = H.get(h)
         r = rng.unit()
         if st is None:
-            c = rng.below(10)
-            if c < 2:
+            c = rng.below(13)
+            if c >= 10:
+                # the value-returning wrappers on a handle without a table (never used = zero-initialised / failed read / freed), or on NULL
+                fn, a = rng.choice(NOTABLE); nullh = rng.chance(0.25)
+                add("notable", "op notable %d %s%s" % (h, fn, " null" if nullh else ""), [call(h, a, ["table"] if nullh else [])], fn=fn, nullh=nullh)
+            elif c < 2:
                 add("init", "op init %d" % h, [call(h, "AInit")]); H[h] = {"dims": [], "keys": {}, "convs": 0}
             elif c < 6:
                 vn = rng.choice(env.good) if rng.chance(0.75) else rng.choice(env.bad)
@@ -247,8 +254,12 @@ def gen_sequence(rng, env, maxlen=30, probe_null=True):
             vn = rng.choice(cands); d = env.inputs[vn]
             add("readmem", "op readmem %d %s" % (h, d["path"]), [call(h, "(AReadMem %s)" % coq_file(SHAPES[d["shape"]], *d["mem"]))])   # refused
         elif c < 28 and probe_null:
-            fn, a = rng.choice(NULLARGS)
-            add("nullarg", "op nullarg %d %s %s" % (h, fn, a), [call(h, NULL_COQ[fn], [a])], fn=fn)
+            if rng.chance(0.4):       # the NULL handle passed to a value-returning wrapper while handle h is in use
+                fn, a = rng.choice(NOTABLE)
+                add("notable", "op notable %d %s null" % (h, fn), [call(h, a, ["table"])], fn=fn, nullh=True)
+            else:
+                fn, a = rng.choice(NULLARGS)
+                add("nullarg", "op nullarg %d %s %s" % (h, fn, a), [call(h, NULL_COQ[fn], [a])], fn=fn)
         else:
             add("free", "op free %d" % h, [call(h, "AFree")]); H[h] = None
     for b in sorted(B): add("buffree", "op buffree %d" % b, [call(0, "(ABufFree %d)" % b)])
@@ -269,6 +280,19 @@ NULLARGS = [("splinetable_init", "table"), ("splinetable_free", "table"), ("read
             ("readsplinefitstable_mem", "table"), ("writesplinefitstable_mem", "buffer"), ("writesplinefitstable_mem", "table"), ("splinetable_convolve", "table"),
             ("splinetable_convolve", "knots"), ("splinetable_permute", "table"), ("splinetable_permute", "permutation"), ("splinetable_glamfit", "table"),
             ("splinetable_glamfit", "data"), ("splinetable_grideval", "table"), ("splinetable_grideval", "result")]
+
+# the value-returning wrappers (no failure code): C function, model call
+NOTABLE = [("splinetable_ndim", "(AAcc AccNdim)"), ("splinetable_order", "(AAcc AccOrder)"), ("splinetable_nknots", "(AAcc AccNknots)"),
+           ("splinetable_knots", "(AAcc AccKnots)"), ("splinetable_knot", "(AAcc AccKnot)"), ("splinetable_lower_extent", "(AAcc AccLower)"),
+           ("splinetable_upper_extent", "(AAcc AccUpper)"), ("splinetable_period", "(AAcc AccPeriod)"), ("splinetable_ncoeffs", "(AAcc AccNcoeffs)"),
+           ("splinetable_total_ncoeffs", "(AAcc AccTotal)"), ("splinetable_stride", "(AAcc AccStride)"), ("splinetable_coefficients", "(AAcc AccCoeff)"),
+           ("tablesearchcenters", "(ASearch true)"), ("ndsplineeval", "AEval"), ("ndsplineeval_deriv", "ADeriv"), ("ndsplineeval_gradient", "AGrad")]
+def notable_expect(fn, r0):
+    """what the harness prints for the model's prediction r0 of a value-returning wrapper on a handle without a table"""
+    if r0[0] == 0: return "int=%d" % r0[1] + (" centers=untouched" if fn == "tablesearchcenters" else "")
+    if r0 == [1, 0]: return "ptr=NULL"
+    if r0 == [4]: return "g0=nan rest=untouched" if fn == "ndsplineeval_gradient" else "dbl=nan"
+    return "<model: %s>" % r0
 
 # ------------------------------------------------------------------------------------------------
 MODEL_HEAD = """From Coq Require Import List Arith Bool String.
@@ -353,10 +377,13 @@ def compare_case(ops, lines, mobs):
         m = ms[-1]
         exp = None; r0 = ms[0][0]
         k = op["k"]
-        if k != "nullarg" and any(x[5] != [1] for x in ms): probs.append(("C18:generator:invalid-call", "op %d `%s` is not a valid call in the model's state" % (i, op["line"])))
+        if k != "nullarg" and not op.get("nullh") and any(x[5] != [1] for x in ms): probs.append(("C18:generator:invalid-call", "op %d `%s` is not a valid call in the model's state" % (i, op["line"])))
         if k == "nullarg":
             ok = (r0 == [0, 1] or r0 == [1, 0] or r0 == [3]) and "refused=1" in c
             if not ok: probs.append(("C18:%s:null-argument" % fn, "op %d `%s`: model %s, C `%s`" % (i, op["line"], r0, c)))
+        elif k == "notable":
+            want = notable_expect(fn, r0)
+            if c != want: probs.append(("C18:%s:model-mismatch" % fn, "op %d `%s`: model %s = `%s`, C `%s` (header: `%s`)" % (i, op["line"], r0, want, c, t)))
         elif k in ("init", "read", "write", "readkey", "writekey", "conv", "readmem", "writemem", "fit", "grideval", "perm"):
             mrc = "rc=%d" % r0[1] if r0[0] == 0 else str(r0)
             if not c.startswith(mrc + " ") and c != mrc: probs.append(("C18:%s:model-mismatch" % fn, "op %d `%s`: model %s, C `%s`" % (i, op["line"], r0, c)))
@@ -388,6 +415,9 @@ def signature_of_crash(ops, cr):
     if k == "nullarg":
         w = cr["op"].split(); fn = (w[4] if len(w) > 4 else fn) + ":null-argument"
     se = cr.get("stderr", "")
+    if k == "notable" and not cr.get("leak_only") and "terminate called" not in se and "!SIGABRT" not in se and "!TIMEOUT" not in se:
+        w = cr["op"].split(); fn = w[4] if len(w) > 4 else fn
+        return "C18:%s:null-handle-deref" % fn, "a value-returning wrapper dereferences a NULL handle / a handle without a table instead of returning the documented value: " + " ".join(re.findall(r"(?:ERROR: \w+Sanitizer: [\w-]+|runtime error: [^\n]{0,80})", se)[:2])
     if cr.get("leak_only"):
         kinds = set(o["k"] for o in ops)
         return ("C18:ndsparse_destroy:leak" if "nddestroy" in kinds else "C18:sequence:leak"), "LeakSanitizer: the sequence released every handle, result and buffer, yet memory is lost"
@@ -432,6 +462,8 @@ def replay(env, path, out):
     pl = json.load(open(path))
     lines = [l.replace("$DIR", env.dir) for l in pl["ops"]]
     ops = [dict(k=l.split()[1], line=l, calls=[]) for l in lines]
+    for o in ops:
+        if o["k"] == "notable": o["fn"] = o["line"].split()[3]
     cf = os.path.join(env.dir, "replay.txt")
     open(cf, "w").write("case replay\n" + "\n".join(lines) + "\nend\n")
     res, crashes = env.run_harness(cf, 1)
@@ -445,10 +477,6 @@ def replay(env, path, out):
     else:
         print("   -> completed, LSan clean")
 
-KNOWN_PROBES = [  # documented-precondition violations the value-returning functions cannot report (known findings)
-    ("acc-null", ["op read 0 %(missing)s", "op acc 0"], "C18:accessors:null-handle-deref"),
-]
-
 def run(info, out):
     env = Env()
     if info.get("replay"):
@@ -461,21 +489,17 @@ def run(info, out):
     for f in sorted(os.listdir(cdir)) if os.path.isdir(cdir) else []:
         pl = json.load(open(os.path.join(cdir, f)))
         lines = [l.replace("$DIR", env.dir) for l in pl["ops"]]
-        corpus.append([dict(k=l.split()[1], line=l, calls=[c.replace("$DIR", env.dir) for c in cs]) for l, cs in zip(lines, pl["calls_per_op"])])
+        ops = [dict(k=l.split()[1], line=l, calls=[c.replace("$DIR", env.dir) for c in cs]) for l, cs in zip(lines, pl["calls_per_op"])]
+        for o in ops:
+            if o["k"] == "notable": o["fn"] = o["line"].split()[3]; o["nullh"] = o["line"].split()[-1] == "null"
+        corpus.append(ops)
     if corpus: execute(env, corpus, "corpus", out, stats)
     nseq = 300 if info["tier"] == "quick" else 3000
     if not info["proof_ok"]: nseq *= 3
     seqs = [gen_sequence(rng.fork("s%d" % i), env) for i in range(nseq)]
     for lo in range(0, nseq, 600):
         execute(env, seqs[lo:lo + 600], "g%d_" % lo, out, stats)
-    # known-finding probes (expected to crash; reported under their signature)
-    for name, lines, sig in KNOWN_PROBES:
-        ls = [l % {"missing": os.path.join(env.dir, "missing.fits")} for l in lines]
-        cf = os.path.join(env.dir, "probe_%s.txt" % name)
-        open(cf, "w").write("case p\n" + "\n".join(ls) + "\nend\n")
-        res, crashes = env.run_harness(cf, 1)
-        if "p" in crashes and not crashes["p"].get("leak_only"):
-            out.violation(sig, "a value-returning wrapper dereferences table->data of a handle whose read failed (no way to report): " + crashes["p"]["op"], {"ops": ls, "crash": crashes["p"]})
+    # (the former known finding C18:accessors:null-handle-deref — fixed by F18_1 — is corpus/C18/c05 and `op notable` above)
     hist, nontriv = {}, set()
     for ops in seqs:
         ks = [o["k"] for o in ops]
